@@ -23,9 +23,27 @@ Variable rq : query -> script.
 
 Definition rex (e : expr query) : script := rexpr query rq is_alpha b T false e.
 
+(* prepare_logical_chain_oper: member i of a chain of `len` members.  A member is parenthesised when the chain has
+   more than one member and either the member is a binary expression whose right operand is binary (the rule the
+   code always had) or the precedence decider does not know it to bind tighter than the chain's AND / OR *)
+Definition rchain_member (len i : nat) (m : bool * expr query) : script :=
+  let (is_or, e) := m in
+  let op := if is_or then BOr else BAnd in
+  let both_binary := match e with EBinary _ _ (EBinary _ _ _) => true | _ => false end in
+  let paren := Nat.ltb 1 len &&
+               (both_binary || negb (t_drop_paren T (shape_key (shape_of e)) (oper_key (OBin op)))) in
+  (if Nat.ltb 0 i then [ws (if is_or then " OR " else " AND ")] else []) ++ wrap paren (rex e).
+
+Fixpoint rchain (len i : nat) (ms : list (bool * expr query)) : script :=
+  match ms with
+  | [] => []
+  | m :: rest => rchain_member len i m ++ rchain len (S i) rest
+  end.
+
 Definition rholder (kw : string) (h : holder query) : script :=
   match h with
   | HEmpty => []
+  | HChain ms => [WS (K " " ++ K kw ++ K " ")] ++ rchain (List.length ms) 0 ms
   | HCond c => [WS (K " " ++ K kw ++ K " ")] ++ rex (to_simple_expr c)
   end.
 
